@@ -119,12 +119,12 @@ func runHistory(c *simcheck.Ctx, sc *histScenario, prefix string, skip func(i in
 			}
 			continue
 		}
-		if op.Op == "build" && h.p.resolve(op.Label) == nil {
+		if op.Op == "build" && h.p.resolve(op.Label) == nil && !strings.Contains(op.Label, "no_such") {
 			continue
 		}
 		h.w.events = nil
 		pc := h.pc
-		if ioErrOps && op.Op == "build" && op.N > 0 {
+		if ioErrOps && op.Op == "build" && op.N > 0 && !op.DryNil {
 			pc.IOErrAt = map[int]int{op.N: op.N}
 		}
 		pc.CrashAt = op.CrashAt
